@@ -13,6 +13,8 @@ RULE = ('all fixed dtypes (uint, int, be/le/ne forms, hex, oct, bin, bytes, bool
         'one stream object read field by field through thirteen stream reading routes with refused calls of 27 kinds in between (too few bits for read / peek / readlist / peeklist / '
         'Dtype reads, bad tokens, absent patterns, refused positions, properties and mutations); every creation and reading route again after a prelude of Dtype constructions in '
         '17 spellings (from instances, with length= / scale=), uses of those Dtypes, refused creations and interpretations; '
+        'histories of property assignments on one mutable object (length in the name equal to / below / above the current length, aliases, plain names; refused for size, range, digits, length, '
+        'name or position; accepted ones in between): bits, length and position survive a refusal, every reading route and the next assignment agree with the canonical encoding; '
         'non-trivial = value not 0; distinct by (dtype, length, value, routes)')
 TRUSTED_BASE = ['translator tools/gen/dtypes.py (bridged: generated dtype table = IntCodec model table, by reflexivity)']
 ASSUMPTIONS = ['struct.pack/unpack is the IEEE 754 reference for floats (floats are compared through their bytes / float.hex, never as floats)', 'int.to_bytes / format() are the independent integer encoders']
@@ -116,8 +118,15 @@ def gen_cases(rng, tier):
     # precedes an ordinary case; afterwards the case, EVERY creation route and EVERY reading route must still give the canonical encoding and the value
     for _ in range(N // 2):
         yield gen_hist(rng, tier)
+    # one MUTABLE object built from a value, then a history of property assignments on it - refused ones (a value of another size than the length in the name, a value
+    # out of range, invalid digits, a length the dtype does not allow, unknown / read-only names, positions beyond the end; the named length equal to, smaller and larger
+    # than the object's current length) and accepted ones in between: a refused assignment leaves bits, length and position alone, every reading route still returns the
+    # value the object was last given, and a later length-keeping assignment (a.uint = w) gives the bits every other creation route gives
+    for _ in range(N // 2):
+        yield gen_refset(rng, tier)
 
 def kind(c):
+    if c['op'] == 'refset': return 'refset:' + c['cls']
     if c['op'] == 'hist': return 'hist:' + c['field'][0]
     if c['op'] == 'stream': return 'stream:' + c['cls']
     return c['op'] + ':' + c.get('name', c.get('kind', ''))
@@ -167,7 +176,7 @@ STREAM_ROUTES = ['read_tok', 'read_nocolon', 'read_dtype', 'read_dtype_tok', 'pe
                  'read_int_prop', 'read_bits_prop', 'slice_prop', 'read_tok', 'peek_read']
 REFUSALS = ['read_long', 'peek_long', 'read_long_same', 'peek_long_same', 'read_int_long', 'peek_int_long', 'readlist_long', 'peeklist_long', 'readlist_list_long', 'read_dtype_long',
             'peek_dtype_long', 'read_bad_token', 'read_negative', 'readto_absent', 'find_absent', 'unpack_long', 'prop_refused', 'parse_long', 'pos_beyond', 'pos_negative',
-            'bytepos_beyond', 'read_golomb_off_end', 'mutation_refused', 'readlist_kw_long', 'read_bad_length', 'peek_bad_token', 'read_rest_unaligned']
+            'bytepos_beyond', 'read_golomb_off_end', 'mutation_refused', 'readlist_kw_long', 'read_bad_length', 'peek_bad_token', 'read_rest_unaligned', 'assign_refused', 'assign_refused']
 
 def gen_stream(rng, tier):
     nf = rng.choice([1, 1, 2, 3, 4, 6])
@@ -253,6 +262,19 @@ def refuse(s, kind, r, name, rest_bits):
         for nm, w in (('hex', 4), ('oct', 3), ('bytes', 8), ('uintle', 8), ('floatbe', 0)):
             if (w and rem % w) or (not w and rem not in (16, 32, 64)): return s.read(nm)        # "the rest" is not a whole number of units: refused
         return 'not-applicable'
+    if kind == 'assign_refused':          # a property assignment that cannot be carried out: the named length is the object's own length (or not), the value is not of that size
+        L = len(s); k = r % 10; x = r >> 4          # (an object that is not mutable refuses every assignment)
+        if k == 0: setattr(s, f'bin{L}', '1' * (L + 1 + x % 3))
+        elif k == 1: setattr(s, f'bits{L}', bitstring.Bits(max(L - 1 - x % 2, 0)))
+        elif k == 2: setattr(s, f'hex{L}' if L % 4 == 0 else f'bin{L}', 'f' * (L // 4 + 1))
+        elif k == 3: setattr(s, f'bytes{L // 8}' if L % 8 == 0 else f'bits{L}', bytes(L // 8 + 1))
+        elif k == 4: setattr(s, f'uint{L}', 1 << L)
+        elif k == 5: setattr(s, f'int{L}', -(1 << (L - 1)) - 1)
+        elif k == 6: setattr(s, ['hex', 'bin', 'oct'][x % 3], ['zz', '012', '89'][x % 3])
+        elif k == 7: setattr(s, 'uint', 1 << L)
+        elif k == 8: setattr(s, f'bin{L + 1 + x % 8}', '1' * L)
+        else: setattr(s, f'oct{L}' if L % 3 == 0 else f'bits{L + 1}', '7' * (L // 3 + 1))
+        return 'set'
     if kind == 'mutation_refused':
         if not isinstance(s, bitstring.BitStream): return s.read(long_tok)
         L = len(s); k = r % 8
@@ -561,6 +583,205 @@ def oracle_hist(c, obs):
         if v != back: return pre + f"the bits {bits[:64]} of {what}: {('after the refused calls ' + ', '.join(k for k, _ in c['refuse']) + ' on the same object, ') if c.get('refuse') else ''}reading route {route} ({c['cls']}) returns {str(v)[:120]}; the value is {str(back)[:50]}"
     return None
 
+# ---------------------------------------------------------------------------------------------------------------------------------------------
+# op 'refset': a history of property assignments on ONE mutable object. The model of the object is a str of '0'/'1': an accepted assignment of
+# (dtype, length, value) replaces it by the canonical encoding, a refused assignment leaves it (and the length, and a stream's position) alone.
+# What varies: the class, both bit numberings, how the object was first built (every creation route), the dtype named in the assignment (with
+# its aliases u i h o b f), the length in the name EQUAL to / just below / just above / unrelated to the current length of the object, no
+# length in the name (the current length is used), and why the assignment cannot be carried out.
+# ---------------------------------------------------------------------------------------------------------------------------------------------
+ALIAS = {'uint': 'u', 'int': 'i', 'hex': 'h', 'oct': 'o', 'bin': 'b', 'float': 'f'}
+ENDIAN_INTS = ['uintbe', 'intbe', 'uintle', 'intle', 'uintne', 'intne']
+
+def spell(rng, name):
+    return ALIAS[name] if name in ALIAS and rng.random() < 0.3 else name
+
+def near_len(rng, L, w):
+    """a length for the name, in bits: a positive multiple of w that is the current length L of the object (when that can be), just below it, just above it or unrelated"""
+    N = rng.choice([L, L, L, L, L, L - w, L + w, L + 8, L - 8, 8, 16, 2 * L, rng.randrange(1, 40)])
+    N -= N % w
+    return N if N > 0 else w
+
+def gen_refused_step(rng, L, stream):
+    """an assignment that cannot be carried out on an object of L bits - from the documentation of the types alone"""
+    r = rng.random()
+    if r < 0.42:            # hex / oct / bin / bytes / bits with the length in the name and a value of another size
+        k = rng.choice(['hex', 'oct', 'bin', 'bytes', 'bits']); w = DIGITW[k]
+        N = near_len(rng, L, w); nd = N // w
+        M = rng.choice([nd - 1, nd + 1, nd - 1, nd + 1, 2 * nd, 0, nd + 3, nd - 2, L // w, (L + w - 1) // w])
+        if M < 0 or M == nd: M = nd + 1
+        ds = [rng.randrange(DIGITK[k]) for _ in range(M)]
+        if k == 'hex': s = ''.join('0123456789abcdef'[d] for d in ds); val = rng.choice([s, s, s.upper(), '0x' + s if s else s])
+        elif k == 'oct': s = ''.join(map(str, ds)); val = rng.choice([s, s, '0o' + s if s else s])
+        elif k == 'bin': s = ''.join(map(str, ds)); val = rng.choice([s, s, '0b' + s if s else s])
+        elif k == 'bytes': val = {rng.choice(['b', 'b', 'ba']): ds}
+        else:
+            s = ''.join(map(str, ds))
+            val = rng.choice([{'bits': s, 'cls': rng.choice(CLASSES)}, {'bits': s, 'cls': 'Bits'}, '0b' + s if s else '', ds if ds else {'bits': '', 'cls': 'BitArray'}])
+        return {'attr': f"{spell(rng, k)}{N // 8 if k == 'bytes' else N}", 'val': val, 'why': f'a value of {M * w} bits under a name that says {N} bits'}
+    if r < 0.62:            # an integer outside the range of the length in the name
+        name = rng.choice(INTS); N = near_len(rng, L, 1 if name in ('uint', 'int') else 8)
+        signed = name.startswith('int'); lo, hi = (-(1 << (N - 1)), (1 << (N - 1)) - 1) if signed else (0, (1 << N) - 1)
+        v = rng.choice([hi + 1, lo - 1, hi + 1, lo - 1, hi + 2 + rng.getrandbits(20), lo - 2 - rng.getrandbits(20), 1 << (N + 64), -(1 << (N + 3))])
+        return {'attr': f'{spell(rng, name)}{N}', 'val': v, 'why': f'outside the range of {N} bits'}
+    if r < 0.72:            # an invalid digit, with or without a length in the name
+        k = rng.choice(['hex', 'oct', 'bin']); w = DIGITW[k]; sized = rng.random() < 0.6
+        N = near_len(rng, L, w); nd = N // w if sized else rng.choice([1, 2, max(L // w, 1), 5])
+        s = ['0123456789abcdef'[rng.randrange(DIGITK[k])] for _ in range(nd)]
+        s[rng.randrange(nd)] = rng.choice({'hex': 'gzG', 'oct': '89a', 'bin': '2a9'}[k])
+        return {'attr': f'{spell(rng, k)}{N}' if sized else spell(rng, k), 'val': ''.join(s), 'why': 'an invalid digit'}
+    if r < 0.82:            # a length in the name that the dtype does not have
+        whole = lambda n: n > 0 and n % 8 == 0
+        fl = lambda n: n in (16, 32, 64)
+        name, ok, val = rng.choice([('float', fl, 1.0), ('floatle', fl, -2.5), ('floatbe', fl, 0.5), ('floatne', fl, 3.0), ('bfloat', lambda n: n == 16, 1.0), ('uintbe', whole, 1), ('intle', whole, -1),
+                                    ('uintne', whole, 0), ('uintle', whole, 1), ('intbe', whole, 0), ('intne', whole, -1), ('bool', lambda n: n == 1, True), ('hex', lambda n: n % 4 == 0, None),
+                                    ('oct', lambda n: n % 3 == 0, None), ('e4m3mxfp', lambda n: n == 8, 1.0), ('uint', lambda n: n > 0, 0), ('int', lambda n: n > 0, 0)])
+        N = rng.choice([n for n in [L, L, L, L + 1, L - 1, L + 4, L - 4, 12, 17, 7, 2, 0] if n >= 0 and not ok(n)])
+        if val is None: val = {'hex': 'a' * max(N // 4, 1), 'oct': '7' * max(N // 3, 1)}[name]
+        return {'attr': f'{spell(rng, name)}{N}', 'val': val, 'why': f'{name} has no length {N}'}
+    if r < 0.92:            # no length in the name: the current length of the object is the length (ints, floats)
+        opts = [('uint', 1 << L), ('uint', -1), ('int', 1 << (L - 1)), ('int', -(1 << (L - 1)) - 1), ('uint', (1 << L) + rng.getrandbits(12)), ('uint', 1 << (L + 64))]
+        if L % 8: opts += [(n, 0) for n in ENDIAN_INTS]
+        else: opts += [('uintbe', 1 << L), ('uintle', 1 << L), ('intne', 1 << (L - 1)), ('intle', -(1 << (L - 1)) - 1), ('uintne', -1), ('intbe', 1 << (L + 3))]
+        if L not in (16, 32, 64): opts += [('float', 1.0), ('floatle', 0.5), ('floatne', 2.0), ('floatbe', -1.0)]
+        name, v = rng.choice(opts)
+        return {'attr': spell(rng, name), 'val': v, 'why': f'not a {name} of the current {L} bits'}
+    if r < 0.97 and stream:  # a position that does not exist
+        k = rng.randrange(9)
+        attr, v = rng.choice([('pos', L + 1 + k), ('pos', -1 - k), ('bitpos', L + 1 + k), ('bitpos', -1 - k), ('bytepos', L // 8 + 1 + k), ('bytepos', -1 - k)])
+        return {'attr': attr, 'val': v, 'why': 'no such position'}
+    return {'attr': rng.choice(['ue', 'uie']), 'val': -1 - rng.randrange(9), 'why': 'a negative value for an unsigned code'}
+
+def gen_undet_step(rng, L):
+    """an assignment the documentation does not decide (unknown names, values of another Python type): whatever happens, a refusal changes nothing"""
+    N = near_len(rng, L, 1); B = near_len(rng, L, 8)
+    attr, val = rng.choice([('len', 3), ('length', 3), ('foo', 3), ('foo8', 3), (f'uint{N}x', 1), (f'Uint{N}', 1), (f'uint_{N}', 1), (f'hex-{N}', 'a'), ('pos', L + 3), ('bytepos', L),
+                            (f'uint{N}', None), (f'uint{N}', 'abc'), ('uint', None), (f'int{N}', [1]), (f'hex{B}', {'b': [97] * (B // 4)}), (f'bytes{B // 8}', 'a' * (B // 8)), ('bytes', 'abc'),
+                            (f'bits{N}', 5), (f'bin{N}', 5), (f'float{rng.choice([16, 32, 64])}', 'x'), ('bool', 2), ('bool', 'maybe'), ('se', 'x'), (f'bits{N}', None), (f'oct{N - N % 3 or 3}', 7)])
+    return {'attr': attr, 'val': val, 'why': 'not a documented assignment'}
+
+def gen_ok_step(rng, L, plain_int=0.0):
+    """an assignment of a value that fits: with the length in the name, or plain (ints / floats keep the current length L, the other types take the length of the value)"""
+    r = rng.random()
+    if r >= plain_int and rng.random() < 0.5:
+        fl = gen_field(rng, small=True); u = field_ref(fl)[1]
+        return {'attr': spell(rng, fl[0]) + ('' if u is None else str(u)), 'field': fl}
+    opts = ['uint', 'int', 'uint', 'int'] + (ENDIAN_INTS if L % 8 == 0 else []) + (FLOATS if L in (16, 32, 64) else [])
+    if r >= plain_int: opts += ['hex', 'oct', 'bin', 'bytes', 'bits', 'bool']
+    name = rng.choice(opts)
+    if name in INTS:
+        v = boundary(rng, name, L)
+        if not name.startswith('int') and v < 0: v = -v
+        fl = [name, L, v]
+    elif name in FLOATS: fl = [name, L, rng.choice([0.0, -0.0, 1.0, -1.5, 0.1, 0.25, 1e-8, rng.uniform(-1e3, 1e3)]).hex()]
+    elif name == 'bool': fl = ['bool', None, rng.random() < 0.5]
+    else: fl = [name, None, [rng.randrange(DIGITK[name]) for _ in range(rng.choice([1, 2, 3, 4, 8, 9]))]]
+    return {'attr': spell(rng, name), 'field': fl}
+
+def gen_refset(rng, tier):
+    if rng.random() < 0.35:           # lengths that hex, oct, bin, bytes and bits names can all state
+        name = rng.choice(['uint', 'int']); L = rng.choice([8, 12, 16, 24, 24, 32, 48, 64, 72, 120])
+        fl = [name, L, abs(boundary(rng, name, L)) if name == 'uint' else boundary(rng, name, L)]
+    else: fl = gen_field(rng)
+    cls = rng.choice(MUTABLE); L = len(field_ref(fl)[0]); L0 = L
+    steps = []
+    for i in range(rng.choice([1, 1, 1, 2, 2, 3, 5] if tier == 'quick' else [1, 1, 2, 3, 5, 8])):
+        q = rng.random()
+        if q < (0.85 if i == 0 else 0.65): st = dict(gen_refused_step(rng, L, cls == 'BitStream'), k='refuse')
+        elif q < 0.92:
+            st = dict(gen_ok_step(rng, L), k='ok'); L = len(field_ref(st['field'])[0])
+        else: st = dict(gen_undet_step(rng, L), k='any')
+        steps.append(st)
+    if not any(st['k'] == 'refuse' for st in steps): steps.append(dict(gen_refused_step(rng, L, cls == 'BitStream'), k='refuse'))
+    return {'op': 'refset', 'cls': cls, 'field': fl, 'cr': rng.choice(CREATE_ROUTES), 'pos': rng.choice([None, 0, 1, L0 // 2, L0]), 'steps': steps, 'then': gen_ok_step(rng, L, plain_int=0.7),
+            'rr': rng.choice(READ_ROUTES), 'lsb0': rng.random() < 0.25}
+
+def rs_pv(v):
+    if isinstance(v, dict):
+        if 'b' in v: return bytes(v['b'])
+        if 'ba' in v: return bytearray(v['ba'])
+        if 'bits' in v: return cls_of(v.get('cls', 'Bits'))(bin=v['bits'])
+    return v
+
+def run_refset(c):
+    import bitstring
+    from bitstring import Bits
+    C = cls_of(c['cls'])
+    def pyval(fl):
+        v = field_ref(fl)[2]
+        return Bits(bin=v[1]) if isinstance(v, tuple) else v
+    def f():
+        bitstring.options.lsb0 = bool(c.get('lsb0'))
+        fl = c['field']
+        a = create(C, fl[0], field_ref(fl)[1], pyval(fl), c['cr'])
+        if c.get('pos') is not None and hasattr(a, 'pos'): a.pos = c['pos']
+        snap = lambda: [a.bin, len(a), getattr(a, 'pos', None), list(a.tobytes())]
+        log = [[type(a).__name__] + snap()]
+        cur = fl
+        for st in c['steps']:
+            val = pyval(st['field']) if st['k'] == 'ok' else rs_pv(st['val'])
+            try: setattr(a, st['attr'], val); r = 'accepted'
+            except Exception as ex: r = exn_name(ex)
+            log.append([r] + snap())
+            if st['k'] == 'ok': cur = st['field']
+        reads = []; u = field_ref(cur)[1]
+        for route in READ_ROUTES:
+            try: reads.append([route, cval(read(a, cur[0], u, route))])
+            except Exception as ex: reads.append([route, 'RAISES ' + type(ex).__name__ + ': ' + str(ex)[:90]])
+        if hasattr(a, 'pos'):
+            try: a.pos = 0; reads.append(['read on the stream itself', cval(a.read(tok_of(cur[0], u)))])
+            except Exception as ex: reads.append(['read on the stream itself', 'RAISES ' + type(ex).__name__ + ': ' + str(ex)[:90]])
+        th = c['then']; tf = th['field']; tu = field_ref(tf)[1]
+        try:
+            setattr(a, th['attr'], pyval(tf)); t = [a.bin, len(a), cval(read(a, tf[0], tu, c['rr']))]
+        except Exception as ex: t = 'RAISES ' + type(ex).__name__ + ': ' + str(ex)[:90]
+        made = []
+        for route in CREATE_ROUTES:
+            val = pyval(tf)
+            if route == 'token' and isinstance(val, (bytes, Bits)): continue
+            try: made.append([route, create(Bits, tf[0], tu, val, route).bin])
+            except Exception as ex: made.append([route, 'RAISES ' + type(ex).__name__ + ': ' + str(ex)[:90]])
+        return [log, reads, t, made]
+    return attempt(f, 20)
+
+def oracle_refset(c, obs):
+    fl = c['field']; bits0, u0, _, back0 = field_ref(fl)
+    who = f"{c['cls']}{' [lsb0]' if c.get('lsb0') else ''} built from {tok_of(fl[0], u0)} = {str(back0)[:40]} via {c['cr']} ({len(bits0)} bits)"
+    if obs[0] != 'ok': return f"{who}: the case could not be run: {obs}"
+    log, reads, t, made = obs[1]
+    if log[0][:3] != [c['cls'], bits0, len(bits0)]: return f"{who}: it is a {log[0][0]} holding {log[0][1][:64]} ({log[0][2]} bits); canonical encoding {bits0[:64]}"
+    cur = fl; known = True; prev = log[0][1:]; hist = []
+    after = lambda: (', after ' + '; '.join(hist[-4:])) if hist else ''
+    for st, ent in zip(c['steps'], log[1:]):
+        r, now = ent[0], ent[1:]
+        if st['k'] == 'ok':
+            b, uu, _, bk = field_ref(st['field'])
+            what = f"a.{st['attr']} = {str(bk)[:50]}"
+            if r != 'accepted': return f"{who}{after()}: the assignment {what} (a value that fits) was refused with {r}"
+            if now[0] != b or now[1] != len(b): return f"{who}{after()}: the assignment {what} left the object holding {now[0][:64]} ({now[1]} bits); canonical encoding {b[:64]} ({len(b)} bits)"
+            cur = st['field']; known = True
+        else:
+            what = f"a.{st['attr']} = {str(st['val'])[:50]}"
+            if r == 'accepted':
+                if st['k'] == 'refuse':
+                    return f"{who}{after()}: the assignment {what} ({st['why']}) has no encoding, every other creation route refuses it; it was accepted and the object now holds {now[0][:64]} ({now[1]} bits)"
+                known = False
+            elif now != prev:
+                return (f"{who}{after()}: the assignment {what} ({st['why']}) was refused with {r}, yet the object changed: bits {prev[0][:48]} -> {now[0][:48]}, length {prev[1]} -> {now[1]}, "
+                        f"position {prev[2]} -> {now[2]}; it no longer holds the value it was given")
+        hist.append(f"{what} ({r})"); prev = now
+    if not known: return None
+    b, uu, _, bk = field_ref(cur)
+    for route, v in reads:
+        if v != bk: return f"{who}{after()}: it holds {tok_of(cur[0], uu)} = {str(bk)[:50]}; reading route {route} returns {str(v)[:120]}"
+    tf = c['then']['field']; tb, tu, _, tbk = field_ref(tf)
+    what = f"a.{c['then']['attr']} = {str(tbk)[:50]}"
+    if t != [tb, len(tb), tbk]:
+        return f"{who}{after()}: the later assignment {what} gives {str(t)[:160]}; the canonical encoding of {tok_of(tf[0], tu)} is {tb[:64]} ({len(tb)} bits), as given by the other creation routes"
+    for route, x in made:
+        if x != tb: return f"{who}{after()} and {what}: creation route {route} now gives {x[:120]} for {tok_of(tf[0], tu)} = {str(tbk)[:50]}; canonical encoding {tb[:64]}"
+    return None
+
 def create(C, name, n, value, route):
     """build class C object for dtype name, length n (units), value, via route. n None = no length"""
     import bitstring
@@ -604,6 +825,7 @@ def run_impl(c):
     C = cls_of(c['cls']); op = c['op']
     if op == 'stream': return run_stream(c)
     if op == 'hist': return run_hist(c)
+    if op == 'refset': return run_refset(c)
     if op == 'int':
         def f():
             s = create(C, c['name'], c['n'], c['v'], c['cr'])
@@ -694,6 +916,7 @@ def oracle(c, obs):
     op = c['op']
     if op == 'stream': return oracle_stream(c, obs)
     if op == 'hist': return oracle_hist(c, obs)
+    if op == 'refset': return oracle_refset(c, obs)
     if op == 'int':
         exp = ref_int_bits(c['name'], c['n'], c['v'])
         if obs != ('ok', [exp, c['cls'], c['v']]):
